@@ -99,7 +99,9 @@ class Run:
                 en.append('Cf')
             else:
                 en.append('C')
-        elif self.tmo_left > 0 and w.can_timeout():
+        elif self.tmo_left > 0 and c['ops'][self.op_i - 1] == 'St':
+            # a parked receive(timeout) can time out — by the statement, not by what the object under test
+            # happens to have passed to wait() (a wait that lost its timeout must show up as a difference)
             en.append('T')
         if w.producer_mid() or self.arr_left > 0:
             en.append('P')
@@ -293,6 +295,8 @@ def judge_batch(acc, results, family):
             acc.count('outcome.' + ('ret' if isinstance(o, dict) and 'ret' in o else
                                     o if isinstance(o, str) else o['exc']))
         acc.count('end.' + (r['trace'][-1][0] if r['trace'] else 'idle'))
+        if acc.violations:
+            ABORT.set()         # the verdict is settled: stop enumerating
         if len(acc.samples) < 2 and parked and concurrent and len(r['outcomes']) >= 2:
             acc.samples.append({'variant': r['variant'], 'sched': ' '.join(sched), 'outcomes': repr(r['outcomes'])})
 
